@@ -433,7 +433,9 @@ def setup(ctx):
             axis = [d for d in range(3) if nu[d] > 0]
             order = sum(nu)
             want = ref.exp_poly3(tr["c"], pts, axis[0] if axis else None, order)
-            scale = tr["fmax"] * ((1.0 + tr["pmax"]) / (h[axis[0]] if axis else 1.0)) ** order
+            # f = exp(p): a rounding error delta in the interpolated logarithm (which has size pmax) shows as f * delta,
+            # so the value scale carries one factor (1 + pmax) even without derivatives
+            scale = tr["fmax"] * (1.0 + tr["pmax"]) * ((1.0 + tr["pmax"]) / (h[axis[0]] if axis else 1.0)) ** order
             tol = TOL_LOG
         else:
             want = ref.poly3(tr["c"], pts, nu)
@@ -913,6 +915,12 @@ def _interp_log(ctx, p):
     c = rng.normal(size=(4, 4, 4))
     pv = ref.poly3(c, g.points)
     c = c * (rng.uniform(0.5, 2.5) / np.abs(pv).max())
+    # positive functions of every magnitude: exp(p - U) with U up to 650 gives values down to 1e-283 (still normal
+    # floating-point numbers); the logarithmic variant must not care about the overall scale
+    U = float([0.0, 0.0, 80.0, 300.0, 650.0, -300.0][int(p.get("k", 0)) % 6])
+    c[0, 0, 0] -= U
+    if U:
+        ctx.count("interp-log:extreme-magnitude")
     values = ref.exp_poly3(c, g.points)
     _register(values, c=c, h=h, fmax=float(values.max()), pmax=float(np.abs(ref.poly3(c, g.points)).max()))
     q = _interior_points(rng, nodes, 5)
